@@ -70,15 +70,23 @@ def lake_build(targets, timeout=3000):
 
 
 def audit(prop):
-    """Theorem list + axioms for one property, from the compiled proofs."""
+    """Theorem list + axioms for one property, from the compiled proofs (imports only that property's module)."""
+    body = open(os.path.join(LEAN, "Audit.lean")).read()
+    body = body.replace("import LlirProofs\n", "import LlirProofs.Props.%s\n" % prop)
+    os.makedirs(WORK, exist_ok=True)
+    path = os.path.join(WORK, "audit_%s.lean" % prop)
+    open(path, "w").write(body)
     with Lock("lake"):
-        rc, out = sh(["lake", "env", "lean", "Audit.lean"], cwd=LEAN, timeout=1200)
+        rc, out = sh(["lake", "env", "lean", path], cwd=LEAN, timeout=1200)
     rows = []
     for line in out.splitlines():
         if line.startswith("AUDIT "):
             r = json.loads(line[6:])
             if r["property"] == prop:
                 rows.append(r)
+    if rc == 0 and not rows:
+        rc = 1
+        out += "\nno theorem found in namespace Llir.Props.%s" % prop
     return rc == 0, rows, out
 
 
